@@ -40,36 +40,61 @@ def c11_1(c: Ctx) -> None:
 
 @ob('C11.2', 'FLOW', 'in the `except Exception as e` arm of execute_handler the recorded error is the caught exception object itself, and the arm re-raises it')
 def c11_2(c: Ctx) -> None:
+    from .c10 import typed_arm_entries, typed_search
+
     u = c.unit(SVC, 'EventBus.execute_handler')
-    arms = [n for n in own_nodes(u.node) if isinstance(n, ast.ExceptHandler) and n.type is not None and U(n.type) == 'Exception'
-            and not any(isinstance(x, ast.Try) and q.lexically_in(n, x, 'finalbody') for x in q.ancestors_of(n))]
-    c.floor(len(arms), 1, '`except Exception` arm around the handler invocation')
-    for arm in arms:
-        ups = [x for b in arm.body for x in ast.walk(b) if isinstance(x, ast.Call) and call_name(x) == 'event_result_update' and q.kw(x, 'error') is not None]
-        if ups and arm.name and all(U(q.kw(x, 'error')) == arm.name for x in ups):
-            c.ok(where(u, arm), f'records error={arm.name} (the caught exception object)')
-        else:
-            c.fail(u, f'except Exception arm records {[U(q.kw(x, "error"))[:40] for x in ups] or "no error"}', 'the recorded error is not the original exception object', node=arm)
-        # the error is recorded on every path through the arm: nothing that may raise precedes the update
-        g = c.cfg(u)
+    g = c.cfg(u)
+    H = c.an.fm.h
+    # an ordinary exception of the handler: the open-ended Exception type raised by the opaque handler call
+    entries = typed_arm_entries(c, u, lambda t: t.name == 'Exception' and not t.exact)
+    c.floor(len(entries), 1, 'ways an ordinary handler exception enters an except arm of execute_handler')
+
+    def is_upd(n):
+        return any(call_name(x) == 'event_result_update' and q.kw(x, 'error') is not None for x in q.node_calls(n))
+
+    for arm, en, env0, facts in entries:
+        env0 = dict(env0)
+        # "ordinary": neither a timeout nor a cancellation (those have entries of their own)
+        for x in ast.walk(arm):
+            if isinstance(x, ast.Call) and isinstance(x.func, ast.Name) and x.func.id == 'isinstance' and len(x.args) == 2 and arm.name and U(x.args[0]) == arm.name and U(x) not in env0:
+                kinds = [H.canon(U(k)) for k in (x.args[1].elts if isinstance(x.args[1], ast.Tuple) else [x.args[1]])]
+                if all(k in ('TimeoutError', 'CancelledError') for k in kinds):
+                    env0[U(x)] = 'F'
         inside = {id(x) for b in arm.body for x in ast.walk(b)}
-        from sa.cfg import search
-
-        def is_upd(n):
-            return any(call_name(x) == 'event_result_update' and q.kw(x, 'error') is not None for x in q.node_calls(n))
-
-        for en in g.nodes_of(arm, ('except',)):
-            p = search([(en, ())], is_target=lambda n, d: n.ast is None or id(n.ast) not in inside, is_barrier=lambda n, d: is_upd(n))
-            if p is None:
-                c.ok(where(u, arm), f'[{en.exc}] the error result is recorded before anything in the arm can raise')
-            else:
-                how = next((s_.via for s_ in p if s_.via.startswith('raises')), 'normal path')
-                c.fail(u, f'except Exception arm can be left before the error is recorded ({how} at `{p[max(0, len(p) - 2)].node.text(60)}`)', "the handler's exception is never captured as its error result: the result stays 'started' and the event never completes", node=arm, witness=c.path(en, p))
-        last = arm.body[-1]
-        if isinstance(last, ast.Raise) and (last.exc is None or (isinstance(last.exc, ast.Name) and last.exc.id == arm.name)):
-            c.ok(where(u, last), 'arm re-raises the caught exception')
+        # the recorded error is the caught object (directly, or through a local that copies it)
+        copies = {arm.name} | {(n.targets[0].id if isinstance(n, ast.Assign) else n.target.id) for n in own_nodes(u.node)
+                               if isinstance(n, (ast.Assign, ast.AnnAssign)) and n.value is not None and isinstance(n.value, ast.Name) and n.value.id == arm.name
+                               and isinstance((n.targets[0] if isinstance(n, ast.Assign) else n.target), ast.Name)}
+        copies |= {(n.targets[0].id if isinstance(n, ast.Assign) else n.target.id) for n in own_nodes(u.node)
+                   if isinstance(n, (ast.Assign, ast.AnnAssign)) and n.value is not None and isinstance(n.value, ast.Name) and n.value.id in copies
+                   and isinstance((n.targets[0] if isinstance(n, ast.Assign) else n.target), ast.Name)}
+        ups = []
+        for n in g.live_nodes():
+            if n.ast is not None and id(n.ast) in inside and is_upd(n) and typed_search(g, en, env0, lambda m, d, n=n: m is n, lambda m, d: False, facts) is not None:
+                ups += [x for x in q.node_calls(n) if call_name(x) == 'event_result_update' and q.kw(x, 'error') is not None]
+        if ups and arm.name and all(U(q.kw(x, 'error')) in copies for x in ups):
+            c.ok(where(u, arm), f'records error={U(q.kw(ups[0], "error"))} (the caught exception object)')
         else:
-            c.fail(u, f'except Exception arm ends with `{q.stmt_text(last, 60)}`', 'a handler error is not propagated to _execute_handlers as itself', node=last)
+            c.fail(u, f'an ordinary handler exception is recorded as {[U(q.kw(x, "error"))[:40] for x in ups] or "no error"}', 'the recorded error is not the original exception object', node=arm)
+        # the error is recorded on every path through the arm: nothing that may raise precedes the update
+        p = typed_search(g, en, env0, lambda n, d: n.ast is None or id(n.ast) not in inside, lambda n, d: is_upd(n), facts)
+        if p is None:
+            c.ok(where(u, arm), f'[{en.exc}] the error result is recorded before anything in the arm can raise')
+        else:
+            how = next((s_.via for s_ in p if s_.via.startswith('raises')), 'normal path')
+            c.fail(u, f'the arm can be left before the error is recorded ({how} at `{p[max(0, len(p) - 2)].node.text(60)}`)', "the handler's exception is never captured as its error result: the result stays 'started' and the event never completes", node=arm, witness=c.path(en, p))
+        # ... and the caught exception itself propagates to _execute_handlers: no normal way out of the arm
+        norm = typed_search(g, en, env0, lambda n, d: (n.ast is None or id(n.ast) not in inside) and n.kind not in ('raise_exit', 'reraise', 'except'), lambda n, d: False, facts, exc_ok=lambda e: False)
+        if norm is None:
+            c.ok(where(u, arm), 'an ordinary handler exception leaves the arm only by being raised')
+        else:
+            c.fail(u, 'the arm can complete normally after an ordinary handler exception', 'a handler error is not propagated to _execute_handlers as itself', node=arm, witness=c.path(en, norm))
+        typed = [n for n in g.live_nodes() if n.kind == 'raise' and n.ast is not None and id(n.ast) in inside and n.ast.exc is not None and not (isinstance(n.ast.exc, ast.Name) and n.ast.exc.id in copies)
+                 and typed_search(g, en, env0, lambda m, d, n=n: m is n, lambda m, d: False, facts) is not None]
+        if not typed:
+            c.ok(where(u, arm), 'what is raised is the caught exception object (bare `raise` / `raise e`)')
+        for n in typed:
+            c.fail(u, f'an ordinary handler exception is re-raised as `{q.stmt_text(n.ast, 60)}`', 'a handler error is not propagated to _execute_handlers as itself', node=n.ast)
 
 
 @ob('C11.3', 'SHAPE/ESC', 'awaiting an event raises no handler error (same obligation as C03.2)')
@@ -218,6 +243,14 @@ def c11_7(c: Ctx) -> None:
     from .c01 import c01_5
 
     c01_5(c)
+
+
+@ob('C11.8', 'DOM', 'a handler error stays with its handler: only a handler *timeout* cancels the pending results of the child events it was waiting on; an ordinary exception (or an interruption '
+    'from above) leaves them alone (same obligation as C10.2) — otherwise an unrelated failure of one handler turns handlers of in-flight child events into errors and they never run')
+def c11_8(c: Ctx) -> None:
+    from .c10 import c10_2
+
+    c10_2(c)
 
 
 OBLIGATIONS = ob.obs
